@@ -237,8 +237,28 @@ fn exec<P: Px>(c: &RCase, stats: &mut Stats, viols: &mut Vec<Viol>) {
                     }
                 }
             }
-            let second = resize_with::<P>(&mut r, &buf, c.sw, c.sh, c.dw, c.dh, &opts_on);
-            if let (Ok(_), Ok(sec)) = (first, second) {
+            let first_ok = first.is_ok();
+            let mut frames: Vec<(&str, Result<Vec<P>, fr::ResizeError>, Vec<P>)> = Vec::new();
+            frames.push(("second frame in the same buffer", resize_with::<P>(&mut r, &buf, c.sw, c.sh, c.dw, c.dh, &opts_on), buf.clone()));
+            if c.sh >= 5 {
+                // third frame: only some rows are edited in place (not the first, the middle or the last one): transparency appears there
+                let comps = P::components_mut(&mut buf);
+                let (sw, sh) = (c.sw as usize, c.sh as usize);
+                for y in 1..sh - 1 {
+                    if y == sh / 2 || y % 2 == 0 {
+                        continue;
+                    }
+                    for x in 0..sw {
+                        let i = y * sw + x;
+                        let a = comps[i * nc + nc - 1].to_f64();
+                        comps[i * nc + nc - 1] = P::C::from_f64(if a == 0.0 { amax } else { 0.0 });
+                    }
+                }
+                frames.push(("third frame (some rows edited in place)", resize_with::<P>(&mut r, &buf, c.sw, c.sh, c.dw, c.dh, &opts_on), buf.clone()));
+            }
+            for (which, second, buf) in frames {
+            let which: &str = which;
+            if let (true, Ok(sec)) = (first_ok, second) {
                 stats.count("second_frames_in_the_same_buffer", 1);
                 let sc = P::components(&sec);
                 let plane: Vec<f64> = {
@@ -264,17 +284,18 @@ fn exec<P: Px>(c: &RCase, stats: &mut Stats, viols: &mut Vec<Viol>) {
                     let tol = if P::kind() == CompKind::F32 { 8.0 * ulp32_up(4.0) } else { 0.0 };
                     if let Some(i) = (0..n).find(|&i| !((sc[i * nc + nc - 1].to_f64() - got[i]).abs() <= tol)) {
                         viols.push(
-                            Viol::new("alpha_channel_differs_from_plain_resampling", format!("{}: second frame in the same buffer: pixel {}: alpha of the result {:?}, the alpha plane of that frame resized alone gives {}", ext.name(), i, sc[i * nc + nc - 1], got[i])).sig(sig("vii-frame2", ext)),
+                            Viol::new("alpha_channel_differs_from_plain_resampling", format!("{}: {}: pixel {}: alpha of the result {:?}, the alpha plane of that frame resized alone gives {}", ext.name(), which, i, sc[i * nc + nc - 1], got[i])).sig(sig("vii-frame2", ext)),
                         );
                     }
                 }
                 for i in 0..n {
                     if is_zero(sc[i * nc + nc - 1]) && (0..nc - 1).any(|ch| !is_zero(sc[i * nc + ch])) {
-                        viols.push(Viol::new("colour_under_zero_alpha_in_result", format!("{}: second frame in the same buffer: pixel {} = {:?}", ext.name(), i, sec[i])).sig(sig("ii-frame2", ext)));
+                        viols.push(Viol::new("colour_under_zero_alpha_in_result", format!("{}: {}: pixel {} = {:?}", ext.name(), which, i, sec[i])).sig(sig("ii-frame2", ext)));
                         break;
                     }
                 }
             }
+        }
         }
         // (iii) opaque source: same as alpha handling disabled
         if opaque {
